@@ -92,6 +92,19 @@ def gen(rng, tier):
             group.append(("scaled", scaled(s, k), BASE_ERR * abs(k), k))
         group.append(("part1", subset(s, lambda i: half[i]), BASE_ERR, None))
         group.append(("part2", subset(s, lambda i: not half[i]), BASE_ERR, None))
+        # the same layout of loads (kinds, axes, positions) with other values, and the sum of the two value sets on that layout
+        alt = s.copy()
+        alt.meta = dict(getattr(s, "meta", {}))
+        for l in alt.loads:
+            for key in (("v",) if l["kind"] == "c" else ("v0", "v1")):
+                l[key] = Fr(rng.choice([0, -1, 2, 7, -40, 350]), rng.choice([1, 2, 5]))
+        both = s.copy()
+        both.meta = dict(getattr(s, "meta", {}))
+        for l, la in zip(both.loads, alt.loads):
+            for key in (("v",) if l["kind"] == "c" else ("v0", "v1")):
+                l[key] = l[key] + la[key]
+        group.append(("alt", alt, BASE_ERR, None))
+        group.append(("both", both, BASE_ERR, None))
         group.append(("none", subset(s, lambda i: False), BASE_ERR, None))
         for role, st, err, k in group:
             c = core.case_from_struct(st, Weight=False, Solve=True, Assemble=True, Error=estr(err))
@@ -161,6 +174,15 @@ def oracle(c, o):
                     if any(C.ffloat(v) != 0 for v in sr["V"] or []):
                         fails.append("structure without loads: bar %s series %s is not identically zero" % (sb["ID"], name))
                         break
+    alt = next((oo for cc, oo in members if cc["role"] == "alt"), None)
+    both = next((oo for cc, oo in members if cc["role"] == "both"), None)
+    if alt is not None and both is not None:
+        # C06_nodal_loads_of_a_bar_are_linear_in_the_load_values, observed on the code's sliced bars
+        fails += layout_linear(oA, alt, both)
+        if M.solved(alt) and M.solved(both):
+            t1, t2 = M.utol(alt), M.utol(both)
+            if t1 is not None and t2 is not None:
+                fails += M.compare(numeric(add_runs(oA, alt)), both, ident(Fr(1)), t1 + t2 + tA, "two value sets on one layout of loads: together vs the sum of each alone")
     p1 = next((oo for cc, oo in members if cc["role"] == "part1"), None)
     p2 = next((oo for cc, oo in members if cc["role"] == "part2"), None)
     if p1 is not None and p2 is not None and M.solved(p1) and M.solved(p2):
@@ -168,6 +190,35 @@ def oracle(c, o):
         if t1 is not None and t2 is not None:
             fails += M.compare(numeric(add_runs(p1, p2)), oA, ident(Fr(1)), t1 + t2 + tA, "two load sets together vs the sum of each alone")
     return fails[:6]
+
+
+def layout_linear(o1, o2, o3):
+    """sliced bars of three runs on one layout of loads, the third carrying the sum of the values of the other two:
+    same cuts, nodal loads add up"""
+    fails = []
+    try:
+        p1, p2, p3 = o1["Pre"][0], o2["Pre"][0], o3["Pre"][0]
+    except (KeyError, IndexError, TypeError):
+        return fails
+    b2, b3 = {b["ID"]: b for b in p2["Bars"]}, {b["ID"]: b for b in p3["Bars"]}
+    for pb in p1["Bars"]:
+        q2, q3 = b2.get(pb["ID"]), b3.get(pb["ID"])
+        if q2 is None or q3 is None or len(q2["Nodes"]) != len(pb["Nodes"]) or len(q3["Nodes"]) != len(pb["Nodes"]):
+            fails.append("bar %s is cut into %d / %s / %s nodes for three value sets on one layout of loads" % (pb["ID"], len(pb["Nodes"]), q2 and len(q2["Nodes"]), q3 and len(q3["Nodes"])))
+            continue
+        mag = sum(abs(C.ffloat(v)) for q in (pb, q2) for n in q["Nodes"] for part in ("Ext", "Left", "Right") for v in n[part][:2])
+        L = abs(C.ffloat(pb["Nodes"][-1]["X"]) - C.ffloat(pb["Nodes"][0]["X"])) + abs(C.ffloat(pb["Nodes"][-1]["Y"]) - C.ffloat(pb["Nodes"][0]["Y"]))
+        for n1, n2, n3 in zip(pb["Nodes"], q2["Nodes"], q3["Nodes"]):
+            if n1["T"] != n2["T"] or n1["T"] != n3["T"]:
+                fails.append("bar %s: cut at t=%s / %s / %s for three value sets on one layout of loads" % (pb["ID"], n1["T"], n2["T"], n3["T"]))
+                break
+            for part in ("Ext", "Left", "Right"):
+                for k in range(3):
+                    a, b_ = C.ffloat(n1[part][k]) + C.ffloat(n2[part][k]), C.ffloat(n3[part][k])
+                    if abs(a - b_) > Fr(1, 10 ** 9) * (abs(a) + abs(b_) + mag * (L if k == 2 else 1)):
+                        fails.append("bar %s node t=%s: %s load component %d is %s for the summed values, %s + %s for each alone" % (pb["ID"], n1["T"], part.lower(), k, n3[part][k], n1[part][k], n2[part][k]))
+                        return fails
+    return fails
 
 
 def numeric(o):
@@ -186,8 +237,8 @@ SPEC = {
     "corpus_filter": lambda c: False,
     "stages": [("F", lambda c, o, rng: solcore.stageF(c, o, rng) if c.get("role") in ("base", "scaled") else None, P.stageF_v, 2, 40)],
     "nontrivial": lambda c, o: M.solved(o) and c.get("role") in ("scaled", "part1"),
-    "rule": "groups of six runs of one solvable structure (as C01): the load set, the same with every load multiplied by two factors from {1e-13, -1, 1e-16, 0.5, 3, -2.5, 1e6, 1e-6, 1e3} (each factor used by some group of every run) "
-            "(requested error scaled with the factor), two complementary halves of the load set (every other group holds two concentrated loads 2e-4 .. 9.9e-4 apart, one in each half; every third a local-axes and a global-axes load at the same point, one in each half), and no loads. Oracle: every displacement, local displacement, diagram value (both sides of every "
+    "rule": "groups of eight runs of one solvable structure (as C01): the load set, the same with every load multiplied by two factors from {1e-13, -1, 1e-16, 0.5, 3, -2.5, 1e6, 1e-6, 1e3} (each factor used by some group of every run) "
+            "(requested error scaled with the factor), the same layout of loads with other values and with the sum of both value sets (sliced bars: same cuts and nodal loads that add up, as C06_nodal_loads_of_a_bar_are_linear_in_the_load_values states; results: together = sum), two complementary halves of the load set (every other group holds two concentrated loads 2e-4 .. 9.9e-4 apart, one in each half; every third a local-axes and a global-axes load at the same point, one in each half), and no loads. Oracle: every displacement, local displacement, diagram value (both sides of every "
             "common position) and reaction of the scaled run equals factor x the base run; base run = sum of the two halves; the unloaded run is identically zero; tolerances from the requested "
             "errors and the conditioning of each system (C01_error_bound) and the stiffness of the shortest slice. non-trivial iff a scaled or partial run solved.",
     "assumptions": ["solver oracle as C01; the solver's absolute stopping rule makes the implementation linear only up to the C01 error bound, which is the tolerance used",
